@@ -16,7 +16,7 @@ RULE = (
     "distinct by spec hash."
 )
 
-PROFILE = {"measures": ["dx"], "ids": "simple"}
+PROFILE = {"measures": ["dx"], "ids": "simple", "bessel": True}
 
 
 def shard(shard, nshards, n, tier, seed):
